@@ -2,7 +2,7 @@
    every node operation (up to the defaults [sop_norm] fills in), every edge (null order offsets made
    explicit) and all metadata.  Parametric in the documents embedded in function-valued constants: the
    hypothesis [h_rs] on the payload is this file's own conclusion one nesting level down. *)
-From Coq Require Import NArith List Bool Arith Lia.
+From Coq Require Import NArith List Bool Arith Lia Permutation.
 Import ListNotations.
 From HV Require Import lib.Harness model.Types model.SerialTypes model.Codec model.CodecVals model.CodecOps model.CodecDoc
   spec.CodecS proofs.CodecP proofs.CodecValsP proofs.CodecOpsP.
@@ -83,6 +83,40 @@ Section DocP.
     constructor; [|auto]. unfold edge_kept. cbn. unfold norm_offset in Ea, Eb.
     repeat split; try discriminate; intros z Hz; subst; congruence.
   Qed.
+  (* ---- the order of the `edges` array is not promised.  [sdoc_same]: the same document up to the order of its
+     edge list; [edges_kept_ms]: every input edge has its own output edge (a matching of the two multisets),
+     wherever it stands.  The statements hold for EVERY implementation choice of the emission order [ord]. ---- *)
+  Definition sdoc_same (a b : sdoc SH) : Prop :=
+    sd_nodes SH a = sd_nodes SH b /\ Permutation (sd_edges SH a) (sd_edges SH b) /\ sd_meta SH a = sd_meta SH b.
+  Definition edges_kept_ms (ein eout : list (sport * sport)) : Prop :=
+    exists l, Permutation l eout /\ Forall2 edge_kept ein l.
+
+  Theorem doc_reserial_any_order : forall ord, (forall l, Permutation (ord l) l) ->
+    forall s, forallb wf (sd_nodes SH s) = true ->
+      sdoc_same (to_serial_ord H SH h_enc h_type ord (from_serial H SH h_dec h_type s)) (sdoc_norm H SH h_dec h_type sopn s).
+  Proof.
+    intros ord Hord s W. pose proof (doc_reserial_all s W) as E. destruct s as [ns es m].
+    unfold to_serial_ord, to_serial, from_serial, sdoc_norm, sdoc_same in *.
+    cbn [h_nodes h_links sd_nodes sd_edges sd_meta] in *. injection E as E1 E2 E3.
+    split; [exact E1|]. split; [|unfold save_meta; now rewrite E3]. rewrite Hord, E2. reflexivity.
+  Qed.
+  Theorem doc_edges_kept_perm : forall s out, edges_wf H SH h_dec h_type s = true ->
+    Permutation out (sd_edges SH (sdoc_norm H SH h_dec h_type sopn s)) -> edges_kept_ms (sd_edges SH s) out.
+  Proof.
+    intros s out W P. exists (sd_edges SH (sdoc_norm H SH h_dec h_type sopn s)). split; [now symmetry|].
+    now apply doc_edges_kept.
+  Qed.
+  Theorem doc_edges_kept_any_order : forall ord, (forall l, Permutation (ord l) l) ->
+    forall s, forallb wf (sd_nodes SH s) = true -> edges_wf H SH h_dec h_type s = true ->
+      edges_kept_ms (sd_edges SH s) (sd_edges SH (to_serial_ord H SH h_enc h_type ord (from_serial H SH h_dec h_type s))).
+  Proof.
+    intros ord Hord s W We. apply doc_edges_kept_perm; [assumption|].
+    now destruct (doc_reserial_any_order ord Hord s W) as (_ & P & _).
+  Qed.
+  (* the positional statement is the instance [ord := fun l => l] *)
+  Lemma to_serial_ord_id : forall h, to_serial_ord H SH h_enc h_type (fun l => l) h = to_serial H SH h_enc h_type h.
+  Proof. reflexivity. Qed.
+
   (* metadata: every node's dictionary is kept (an absent one and {} are both written as null) *)
   Theorem doc_meta_kept : forall s idx, idx < length (sd_nodes SH s) ->
     get_meta (sd_meta SH (sdoc_norm H SH h_dec h_type sopn s)) idx = get_meta (sd_meta SH s) idx.
@@ -98,6 +132,62 @@ Section DocP.
   Qed.
 End DocP.
 
+(* ---- the boolean multiset comparison the run module uses means [Permutation] ---- *)
+Lemma remove1_perm {A} (eqb : A -> A -> bool) (Heq : forall a b, eqb a b = true -> a = b) x :
+  forall l l', remove1 eqb x l = Some l' -> Permutation l (x :: l').
+Proof.
+  induction l as [|y r IH]; intros l' E; cbn in E; [discriminate|].
+  destruct (eqb x y) eqn:Exy.
+  - apply Heq in Exy. inversion E. subst. reflexivity.
+  - destruct (remove1 eqb x r) as [r'|] eqn:Er; [|discriminate]. inversion E. subst.
+    rewrite (IH r' eq_refl). apply perm_swap.
+Qed.
+Lemma perm_eqb_sound {A} (eqb : A -> A -> bool) (Heq : forall a b, eqb a b = true -> a = b) :
+  forall a b, perm_eqb eqb a b = true -> Permutation a b.
+Proof.
+  induction a as [|x r IH]; intros b E; cbn in E.
+  - destruct b; [constructor|discriminate].
+  - destruct (remove1 eqb x b) as [b'|] eqn:Eb; [|discriminate].
+    rewrite (remove1_perm eqb Heq x b b' Eb). constructor. now apply IH.
+Qed.
+(* ... and it accepts everything the positional comparison accepted *)
+Lemma list_eqb_perm_eqb {A} (eqb : A -> A -> bool) : forall a b, list_eqb eqb a b = true -> perm_eqb eqb a b = true.
+Proof.
+  induction a as [|x r IH]; intros [|y s] E; cbn in *; try discriminate; [reflexivity|].
+  apply andb_prop in E as [E1 E2]. rewrite E1. now apply IH.
+Qed.
+Lemma sport_eqb_eq : forall a b, sport_eqb a b = true -> a = b.
+Proof.
+  intros [an [ao|]] [bn [bo|]]; unfold sport_eqb, pair_eqb, option_eqb; cbn; intro E;
+    apply andb_prop in E as [E1 E2]; try discriminate; apply N.eqb_eq in E1; subst; [|reflexivity].
+  apply N.eqb_eq in E2. now subst.
+Qed.
+Lemma edge_eqb_eq : forall a b, edge_eqb a b = true -> a = b.
+Proof.
+  intros [a1 a2] [b1 b2]. unfold edge_eqb, pair_eqb. cbn. intro E. apply andb_prop in E as [E1 E2].
+  apply sport_eqb_eq in E1, E2. now subst.
+Qed.
+Theorem edges_sameb_sound : forall a b, edges_sameb a b = true -> Permutation a b.
+Proof. exact (perm_eqb_sound edge_eqb edge_eqb_eq). Qed.
+Theorem sdoc_eqb_sameb : forall SH sh_eqb (a b : sdoc SH), sdoc_eqb SH sh_eqb a b = true -> sdoc_sameb SH sh_eqb a b = true.
+Proof.
+  intros SH sh_eqb a b E. unfold sdoc_eqb, sdoc_sameb in *.
+  apply andb_prop in E as [E E3]. apply andb_prop in E as [E1 E2]. rewrite E1, E3.
+  unfold edges_sameb, edge_eqb. now rewrite (list_eqb_perm_eqb _ _ _ E2).
+Qed.
+(* what a passing monitor clause means: the re-saved document compares equal to [sdoc_norm s] with its edges taken
+   as a multiset  =>  every edge of the input has its own edge in the output, between the same nodes, given offsets
+   unchanged, null offsets filled in; and there are no other edges *)
+Theorem doc_monitor_sound : forall H SH (h_dec : SH -> H) h_type sh_norm sh_eqb s (reser : sdoc SH),
+  edges_wf H SH h_dec h_type s = true ->
+  sdoc_sameb SH sh_eqb reser (sdoc_norm H SH h_dec h_type (sop_norm_h SH sh_norm) s) = true ->
+  edges_kept_ms (sd_edges SH s) (sd_edges SH reser).
+Proof.
+  intros H SH h_dec h_type sh_norm sh_eqb s reser W E. unfold sdoc_sameb in E.
+  apply andb_prop in E as [E _]. apply andb_prop in E as [_ E]. apply edges_sameb_sound in E.
+  exact (doc_edges_kept_perm H SH h_dec h_type sh_norm s _ W E).
+Qed.
+
 (* ---- nesting depth 0: documents without function-valued constants (the payload type is empty, so every
    hypothesis on it holds): the theorems above and the value / operation round trips, unconditionally ---- *)
 Definition E0 := Empty_set.
@@ -109,6 +199,29 @@ Lemma e0_rt : forall h : E0, e0_ok h = true ->
 Proof. intros []. Qed.
 Lemma e0_rs : forall sh : E0, e0_ok sh = true -> e0 (e0 sh) = e0 sh.
 Proof. intros []. Qed.
+
+(* non-vacuity of the order-free statements: a foreign document whose edges are not listed by source port (crossed
+   wires, then an order edge the hugr-rs way), re-saved by an implementation that lists the links in another order
+   ([rev], a permutation): the document written differs from the one [to_serial] writes position by position, is the
+   same document with the edges taken as a multiset, and every input edge is kept *)
+Definition ex_doc : sdoc E0 :=
+  SDoc [SDFG 0 (SFunc [SQubit; SQubit] [SQubit; SQubit] []); SInput 0 [SQubit; SQubit]; SOutput 0 [SQubit; SQubit]]
+       [((1, Some 1), (2, Some 0)); ((1, Some 0), (2, Some 1)); ((1, None), (2, None))]%N None.
+Definition e0_eqb (a b : E0) : bool := true.
+Example reserial_any_order_example :
+  let out := to_serial_ord E0 E0 e0 e0_type (@rev _) (from_serial E0 E0 e0 e0_type ex_doc) in
+  let nrm := sdoc_norm E0 E0 e0 e0_type (sop_norm_h E0 e0) ex_doc in
+  forallb (sop_wf E0 e0_ok) (sd_nodes E0 ex_doc) = true /\ edges_wf E0 E0 e0 e0_type ex_doc = true /\
+  sdoc_eqb E0 e0_eqb out nrm = false /\ sdoc_sameb E0 e0_eqb out nrm = true /\
+  sd_edges E0 out = [((1, Some 2), (2, Some 2)); ((1, Some 0), (2, Some 1)); ((1, Some 1), (2, Some 0))]%N /\
+  edges_kept_ms (sd_edges E0 ex_doc) (sd_edges E0 out).
+Proof.
+  cbv zeta. repeat split; try (vm_compute; reflexivity).
+  apply (doc_edges_kept_any_order E0 E0 e0 e0 e0_type e0 e0_ok e0_rs (@rev _)).
+  - intro l. symmetry. apply Permutation_rev.
+  - vm_compute; reflexivity.
+  - vm_compute; reflexivity.
+Qed.
 
 (* ---- nesting depth n+1 from depth n: the tower of documents ---- *)
 Fixpoint SDocT (n : nat) : Type := match n with O => Empty_set | S k => sdoc (SDocT k) end.
